@@ -530,6 +530,14 @@ check_garbage(const unsigned char *g, size_t gn, int sof, int srcchunk, int sink
     int pi[3] = { (int)(sel % 5), (int)((sel / 5) % 5), (int)((sel / 25) % 5) };
     for (int k = 0; k < 3; k++)
         sn += ref_encode(sof, PAY[pi[k]].p, PAY[pi[k]].n, stream + sn);
+    /* the stream is read in one piece, and again with the source failing once (a transient error, decoding carries
+     * on with the same context) behind the prefix, before its last octet and at one more position inside it: what
+     * has to arrive does not depend on that */
+    static unsigned rotpos;
+    const size_t failpos[4] = { SIZE_MAX, gn, gn ? gn - 1 : SIZE_MAX, gn > 2 ? rotpos++ % (gn - 1) : SIZE_MAX };
+  for (int variant = 0; variant < 4; variant++) {
+    if (variant && failpos[variant] == SIZE_MAX)
+        continue;
     unsigned char *pin = vh_arena_copy(stream, sn);
     RFC1055Context ctx;
     ctx_setup(&ctx, sof);
@@ -538,16 +546,26 @@ check_garbage(const unsigned char *g, size_t gn, int sof, int srcchunk, int sink
     struct tsrc ts;
     static struct tsink tk;
     mk_source(&src, &ts, srcchunk, pin, sn);
+    ts.fail_at = failpos[variant];
+    ts.bound = (unsigned)(3 * sn + 32);
+    ERR_SRC = err_codes[(sel + (unsigned)variant) % NERR];
+    int nerr = 0;
+    if (variant)
+        VH_COUNT("garbage: transient source error inside or right behind the prefix");
     /* delivered non-empty frames */
     unsigned char frames[140][16];
     size_t flen[140];
     size_t nf = 0;
-    for (unsigned call = 0; call < sn + 2; call++) {
+    for (unsigned call = 0; call < sn + 4; call++) {
         mk_sink(&snk, &tk, sinkchunk);
         int rc = rfc1055_decode(&ctx, &src, &snk);
         if (ts.runaway) {
             vh_fail("decode-progress", key, "stream=%s: more than %u source calls", vh_hex(stream, sn), ts.bound);
             return;
+        }
+        if (variant && rc == ERR_SRC && nerr == 0) {
+            nerr++;
+            continue;
         }
         if (rc == 1 && tk.n > 0 && nf < 140) {
             flen[nf] = tk.n > 16 ? 16 : tk.n;
@@ -581,9 +599,14 @@ check_garbage(const unsigned char *g, size_t gn, int sof, int srcchunk, int sink
         got[0] = 0;
         for (size_t i = 0; i < nf && o < 350; i++)
             o += (size_t)snprintf(got + o, sizeof got - o, "[%s]", flen[i] == 99 ? "long" : vh_hex(frames[i], flen[i]));
-        vh_fail("resync", key, "garbage=%s stream=%s: delivered %s, the last %d must be payloads %d,%d,%d", vh_hex(g, gn),
-                vh_hex(stream, sn), got, need, pi[0], pi[1], pi[2]);
+        if (variant)
+            vh_fail("resync-after-source-error", key, "garbage=%s stream=%s, source failing once before octet %zu: delivered %s, the last %d must be payloads %d,%d,%d",
+                    vh_hex(g, gn), vh_hex(stream, sn), failpos[variant], got, need, pi[0], pi[1], pi[2]);
+        else
+            vh_fail("resync", key, "garbage=%s stream=%s: delivered %s, the last %d must be payloads %d,%d,%d", vh_hex(g, gn),
+                    vh_hex(stream, sn), got, need, pi[0], pi[1], pi[2]);
     }
+  }
 }
 
 /* error injection at every source position and sink position */
